@@ -105,7 +105,7 @@ PermK(s, k) ==
 (*    (a json.Number passed through must be the same text).                 *)
 RECURSIVE VMatch(_, _), VMatchSeq(_, _, _), VMatchObj(_, _, _)
 VMatch(s, r) ==
-  IF s.t = "anyid" THEN r.t = "num"
+  IF s.t = "anyid" THEN r.t \in {"num", "anyid"}
   ELSE IF s.t # r.t THEN FALSE
   ELSE CASE s.t = "arr" -> Len(s.a) = Len(r.a) /\ VMatchSeq(s.a, r.a, 1)
          [] s.t = "obj" -> Len(s.o) = Len(r.o) /\ VMatchObj(s.o, r.o, 1)
